@@ -1,5 +1,6 @@
 // C07 - etl::expected / etl::unexpected track the same state and value as std::expected / std::unexpected (C++23)
-// -DVF_CFG: 0 expected<int,int>   1 expected<tracked-cm, tracked-cm2>
+// -DVF_CFG: 0 expected<int,int>   1 expected<tracked-cm, tracked-cm2>   2 expected<tracked-cm,tracked-cm> (T == E)
+//           3 expected<string-like,string-like>   4 expected<tracked-cm,int> (E convertible to T)
 // Twin worlds (vf_c07.hpp).  libstdc++ 12 ships <expected> without the monadic members (and_then / or_else came
 // with GCC 13), so for those two the std-side reference is the wording of [expected.object.monadic] written out
 // on top of std::expected (has_value ? invoke(f, forward-like value) : U(unexpect, forward-like error)).
@@ -26,11 +27,26 @@ using T = int;
 using E = int;
 constexpr char const* kName = "expected<int,int>";
     #define VF_UNIT "C07_expected_int"
-#else
+#elif VF_CFG == 1
 using T = TCM;
 using E = TCM2;
 constexpr char const* kName = "expected<tracked-cm,tracked-cm2>";
     #define VF_UNIT "C07_expected_tracked"
+#elif VF_CFG == 2
+using T = TCM; // value and error of the SAME non-trivial type: the two arms differ only by index
+using E = TCM;
+constexpr char const* kName = "expected<tracked-cm,tracked-cm>";
+    #define VF_UNIT "C07_expected_same_tcm"
+#elif VF_CFG == 3
+using T = StrLike;
+using E = StrLike;
+constexpr char const* kName = "expected<string-like,string-like>";
+    #define VF_UNIT "C07_expected_same_str"
+#else
+using T = TCM; // error type convertible to the value type
+using E = int;
+constexpr char const* kName = "expected<tracked-cm,int>";
+    #define VF_UNIT "C07_expected_conv"
 #endif
 
 enum Op : unsigned {
@@ -249,7 +265,13 @@ struct ExpWorld {
         X& o = *x;
         switch (op) {
         case eEmplace: {
-            T& ref = o.emplace(a.v);
+            T& ref = [&]() -> T& {
+                if constexpr (std::is_nothrow_constructible_v<T, int>) {
+                    return o.emplace(a.v);
+                } else {
+                    return o.emplace(T(a.v)); // emplace demands nothrow construction: go through the (noexcept) move constructor
+                }
+            }();
             r.b("emplace-returns-contained", o.has_value() && &ref == &*o);
             break;
         }
